@@ -242,6 +242,9 @@ def run(prop, tier, seed):
             # class, where lazily initialised shared state is filled - plus a seeded sample of the rest
             want = P.cfg[tier]['k_per_pair']
             cap = P.cfg[tier].get('window_cap')
+            scale = float(os.environ.get('DSIM_SCALE', '1') or 1)
+            if scale != 1 and cap:
+                cap = max(200, int(cap * scale))
             ks = set(first)
             if cap and len(ks) > cap:
                 ks = set(r2.sample(sorted(ks), cap))
